@@ -1123,6 +1123,13 @@ func (w *worker) runCombine(ctx context.Context, task *Task, taskStats *stats.Ma
 	w.mu.Unlock()
 
 	defer func() {
+		if e := recover(); e != nil {
+			// A panic (typically in the user's combine function) must not
+			// look like success to the commit below.
+			stack := debug.Stack()
+			err = fmt.Errorf("panic while evaluating slice: %v\n%s", e, string(stack))
+			err = maybeTaskFatalErr{errors.E(err, errors.Fatal)}
+		}
 		w.mu.Lock()
 		w.combinerStates[combineKey]--
 		w.mu.Unlock()
@@ -1185,8 +1192,7 @@ func (w *worker) runCombine(ctx context.Context, task *Task, taskStats *stats.Ma
 			}
 
 			flushed := pcomb.Compact()
-			combErr := combiner.Combine(ctx, flushed)
-			combiners[p] <- combiner
+			combErr := combineAndReturn(ctx, combiners[p], combiner, flushed)
 			if combErr != nil {
 				return combErr
 			}
@@ -1200,13 +1206,20 @@ func (w *worker) runCombine(ctx context.Context, task *Task, taskStats *stats.Ma
 	// Flush the remainder.
 	for p, comb := range partitionCombiner {
 		combiner := <-combiners[p]
-		err := combiner.Combine(ctx, comb.Compact())
-		combiners[p] <- combiner
+		err := combineAndReturn(ctx, combiners[p], combiner, comb.Compact())
 		if err != nil {
 			return err
 		}
 	}
 	return nil
+}
+
+// combineAndReturn combines f into c and hands c back to its channel, also
+// when the (user) combine function panics: a combiner that is not handed
+// back blocks every later user of the partition, including the commit.
+func combineAndReturn(ctx context.Context, ch chan *combiner, c *combiner, f frame.Frame) error {
+	defer func() { ch <- c }()
+	return c.Combine(ctx, f)
 }
 
 func (w *worker) Stats(ctx context.Context, _ struct{}, values *stats.Values) error {
